@@ -17,7 +17,7 @@ for m in sorted(glob.glob(f"{V}/seeded/*/meta.json")):
     hist = d.get("history", [])
     earlier_miss = any(any(c.get("exit") == 0 for c in (h.get("checks") or {}).values()) for h in hist)
     rows.append((sid, d.get("breaks_property"), ", ".join(f.replace("einx/_src/", "") for f in files), "; ".join(caught) or "-", ", ".join(missed) or "-",
-                 "yes" if earlier_miss else ""))
+                 ("yes" if earlier_miss else "") + (" (obsolete: " + d["obsolete"][:60] + "...)" if d.get("obsolete") else "")))
 print("| seed | property | file(s) changed | caught by (first violation kind) | not caught by | missed before strengthening |")
 print("|---|---|---|---|---|---|")
 for r in rows:
